@@ -128,7 +128,28 @@ func genC04(t *rapid.T) *CaseC04 {
 	}
 	for _, tg := range targets {
 		ms := cover(t, tg, maxDH, maxDV, c.Spatial)
-		switch rapid.IntRange(0, 3).Draw(t, "hole") {
+		switch rapid.IntRange(0, 4).Draw(t, "hole") {
+		case 4: // thicken: replace one to three members by a parent on ONE axis (still inside the target voxel): the cover
+			// stays complete but its members overlap, and a single member may be the only one at the finest zoom of an axis
+			for i := rapid.IntRange(1, 3).Draw(t, "nThick"); i > 0 && len(ms) > 1; i-- {
+				j := rapid.IntRange(0, len(ms)-1).Draw(t, "thickIdx")
+				m := ms[j]
+				switch {
+				case c.Spatial: // single-zoom IDs: the parent on both axes
+					if m.H > tg.H && m.V > tg.V {
+						m.H, m.X, m.Y, m.V, m.F = m.H-1, m.X>>1, m.Y>>1, m.V-1, m.F>>1
+					}
+				case rapid.Bool().Draw(t, "thickV"):
+					if m.V > tg.V {
+						m.V, m.F = m.V-1, m.F>>1
+					}
+				default:
+					if m.H > tg.H {
+						m.H, m.X, m.Y = m.H-1, m.X>>1, m.Y>>1
+					}
+				}
+				ms[j] = m
+			}
 		case 0: // remove one member: the group misses (at least) one cell
 			if len(ms) > 1 {
 				i := rapid.IntRange(0, len(ms)-1).Draw(t, "holeIdx")
